@@ -1737,8 +1737,12 @@ static int get_peer_subject_cn(struct xcm_socket *s, void *context,
 {
     struct btls_socket *bts = TOBTLS(s);
 
-    if (bts->conn.state != conn_state_ready)
-	return 0;
+    /* a string value of length zero would leave the caller's buffer
+       without NUL termination */
+    if (bts->conn.state != conn_state_ready) {
+	errno = ENOENT;
+	goto err;
+    }
 
     X509 *remote_cert = SSL_get_peer_certificate(bts->conn.ssl);
     if (remote_cert == NULL) {
